@@ -561,10 +561,10 @@ type trace struct {
 }
 
 type seqOut struct {
-	canon                         []string
-	grants, keyedOk, r400, cross  int
-	expiries                      int
-	found                         bool
+	canon                        []string
+	grants, keyedOk, r400, cross int
+	expiries                     int
+	found                        bool
 }
 
 // runSeq runs one sequence in a fresh bubble. mixed=false: paired servers G (gRPC) / R (REST);
